@@ -13,6 +13,7 @@ import (
 	"os"
 	"path/filepath"
 	"runtime"
+	"runtime/pprof"
 	"sort"
 	"strconv"
 	"strings"
@@ -178,6 +179,8 @@ type world struct {
 	inbound  func(m service.DIDCommMsgMap) error
 	outbound func(m service.DIDCommMsgMap) error
 	barrier  func()
+	stop     func() // ends the listener goroutine of the current service instance (verif hook VerifStop)
+	sp       storage.Provider
 	optOf    func(kind string) interface{}
 	msgTypes map[string][2]string
 	seq      int
@@ -219,6 +222,7 @@ func newWorld(proto string, v3 bool) *world {
 	}
 
 	w.prov = &provider{m: w.msgr, s: rec}
+	w.sp = sp
 	name := w.startService()
 
 	st, err := sp.OpenStore(name)
@@ -254,6 +258,7 @@ func (w *world) startService() string {
 			return e
 		}
 		w.barrier = svc.VerifBarrier
+		w.stop = svc.VerifStop
 		w.actCont = func(piid string, opt interface{}) error {
 			if o, ok := opt.(ic.Opt); ok {
 				return svc.ActionContinue(piid, o)
@@ -300,6 +305,7 @@ func (w *world) startService() string {
 			return e
 		}
 		w.barrier = svc.VerifBarrier
+		w.stop = svc.VerifStop
 		w.actCont = func(piid string, opt interface{}) error {
 			if o, ok := opt.(pp.Opt); ok {
 				return svc.ActionContinue(piid, o)
@@ -349,6 +355,7 @@ func (w *world) startService() string {
 			return e
 		}
 		w.barrier = svc.VerifBarrier
+		w.stop = func() { svc.VerifStop() }
 		w.actCont = func(piid string, opt interface{}) error {
 			o, _ := opt.(introduce.Opt) //nolint:errcheck
 			return svc.ActionContinue(piid, o)
@@ -734,7 +741,10 @@ func (w *world) apply(op Op) (o Obs, staleEvent bool, bad string) {
 			}
 		}
 	case "restart":
-		// a new service instance over the same stores; callbacks handed out before are gone
+		// a new service instance over the same stores; callbacks handed out before are gone (the old instance's
+		// listener goroutine is ended once it is idle)
+		w.barrier()
+		w.stop()
 		w.startService()
 
 		for i := range w.clos {
@@ -1120,10 +1130,21 @@ func tapeOf(proto string, op Op, o Obs) []string {
 	return tape
 }
 
+// shutdown ends the world of a finished case: the service's listener goroutine (the services offer no way to stop it:
+// verif hook) and the data of its stores; otherwise every finished case stays in memory.
+func (w *world) shutdown() {
+	w.barrier()
+	w.stop()
+	_ = w.sp.Close() //nolint:errcheck
+	w.pending, w.rawAll = nil, nil
+}
+
 // ---------- running a case ----------
 
 func runCase(tr *hx.Trace, kind string, c *Case, withCoq bool) (key string, lastRes string) {
 	w := newWorld(c.Proto, c.V3)
+	defer w.shutdown()
+
 	if c.Subs > 1 && w.regEv != nil {
 		w.enableSubs(c.Subs-1, c.Script)
 		defer w.closeSubs()
@@ -1684,4 +1705,8 @@ func memReport(what string) {
 	runtime.GC()
 	runtime.ReadMemStats(&m)
 	fmt.Fprintf(os.Stderr, "c09 mem %s: heap %d MB, sys %d MB, goroutines %d\n", what, m.HeapAlloc>>20, m.Sys>>20, runtime.NumGoroutine())
+
+	if os.Getenv("C09_MEM") == "2" {
+		_ = pprof.Lookup("goroutine").WriteTo(os.Stderr, 1) //nolint:errcheck
+	}
 }
